@@ -51,7 +51,11 @@ theorem accept_result (p l1 l2 l3 l4 l5 payload : Str) (qos : Option Int)
   · intro l hl
     simp at hl
     rcases hl with rfl | rfl | rfl | rfl | rfl
-    exacts [h.1, h.2.1, h.2.2.1, h.2.2.2.1, h.2.2.2.2]
+    · exact h.1
+    · exact h.2.1
+    · exact h.2.2.1
+    · exact h.2.2.2.1
+    · exact h.2.2.2.2
 
 /-- the five levels of an accepted topic are determined by the topic (one topic, one header) -/
 theorem accept_levels_unique (p : Str) (ls ls' : List Str) (h5 : ls.length = 5) (h5' : ls'.length = 5)
@@ -79,8 +83,7 @@ theorem reject_short (p topic payload : Str) (qos : Option Int)
 theorem publish_shape (c : Str) (m : Msg) (h : decode c = some m) :
     messageToMqtt c = some ('/' :: joinWith '/' [renderInt m.node, renderInt m.child,
       renderInt m.type, renderInt m.ack, renderInt m.sub], m.payload, m.ack) := by
-  unfold messageToMqtt
-  rw [h, topicOf_eq m (decode_some c m h).2]
+  simp only [messageToMqtt, h, topicOf_eq m (decode_some c m h).2]
 
 /-- `send` hands something to the publish callback exactly for command strings that decode;
     everything else (`None`, `""`, malformed text) is skipped or dropped -/
@@ -100,7 +103,7 @@ theorem send_publishes_iff (outP : Str) (retain raises : Bool) (msg : Option Str
       | some m => exact ⟨c :: cs, m, rfl, hd⟩
   · rintro ⟨c, m, rfl, hd⟩
     cases c with
-    | nil => exact absurd hd (by decide)
+    | nil => rw [decode_nil] at hd; cases hd
     | cons x xs =>
       unfold mqttSend
       simp only [messageToMqtt, hd]
@@ -121,7 +124,7 @@ theorem roundtrip (inP outP c : Str) (retain raises : Bool) (m : Msg) (h : decod
   refine ⟨'/' :: joinWith '/' [renderInt m.node, renderInt m.child, renderInt m.type,
       renderInt m.ack, renderInt m.sub], ?_, ?_⟩
   · cases c with
-    | nil => exact absurd h (by decide)
+    | nil => rw [decode_nil] at h; cases h
     | cons x xs =>
       unfold mqttSend
       simp only [publish_shape _ m h]
